@@ -1,133 +1,391 @@
-import Mieru.Model.Server
+import Mieru.Proofs.Server
+import Mieru.Model.Discovery
 import Mieru.Gen.Facts
 import Mieru.Gen.Consts
+import Mieru.Gen.Arith
+import Mieru.Gen.FirstContact
 /-!
 # C05 — no credential: the server stays silent and creates nothing
 
-`Mieru.Model.Server` abstracts what arrives to the facts the server code branches on. A party that
-knows no registered credential can only produce units whose metadata opens under no registered key
-(`opens = none`, resp. `existing = none ∧ discover = none`) — that is the ideal-AEAD hypothesis of
-DESIGN.md §5 (modelled, not verified). Under it, for EVERY input sequence:
-the server writes nothing, creates no session and hands nothing to the proxy application.
+`Mieru.Model.Server` is the first-contact state machine of both underlays: the byte thresholds of
+the reads, the replay flag, discovery (symbolic: `opens = some u` iff the metadata AEAD opens under the
+key of registered user `u`), `Unmarshal`, the body (TCP: bytes that must arrive; UDP: the exact size
+checks), the two functions of server_session_validation.go, and the dispatch switch of the event loop.
 
-Tie to the code: (T) `Mieru.Gen.Facts.networkWrites / writeCallers` — every network write of
-pkg/protocol sits in `writeOneSegment` / `writeWithPossibleFragment`, whose callers are the session
-output path and the two event loops (the close request for an unknown session, sent only after a
-segment authenticated); (C) harness/props/c05.go drives a real server with the concrete inputs of
-each abstract class (random bytes of every length, prefixes and single-bit flips of genuine first
-segments, well-formed handshakes under foreign credentials and forged hints, on both transports,
-interleaved with genuine traffic) and compares its reaction with `tcpRun` / `udpRun`.
+Main statement (`tcp_silent_until_valid_open`, `udp_dropped_unless_effective`): the server writes
+nothing, creates no session and hands nothing to the proxy application for EVERYTHING SHORT OF A VALID
+OPEN REQUEST — a unit is answered only if it is long enough, opens under a registered key, is not a
+replay, unmarshals (timestamp within a minute), its body is complete and authentic, and it is an
+open-session request with a non-zero id.  Random bytes, truncated or bit-flipped copies of genuine
+handshakes (also FRESH ones, which do open under a registered key), handshakes under foreign
+credentials and forged hints are all instances; the credential-less ones are singled out in
+`tcp_unauth_silent` / `udp_unauth_silent` (hypothesis = the ideal-AEAD reading "no credential ⇒ nothing
+opens", DESIGN.md §5; modelled, not verified).  `hint_is_not_a_credential` composes this with the
+discovery model of C07: if no registered user's key opens the metadata, discovery finds nobody, for
+EVERY hint value (also one that names a real user), every cache content and both hint modes.
+
+Tie to the code: (T) `server_constants_match_code`, `classification_matches_code`,
+`validation_matches_code`, `first_contact_shape`, `network_write_sites` — the model's constants,
+protocol classification, the two validation functions, the read thresholds, the drain condition, the
+datagram size checks and the write sites are compared with definitions / facts REGENERATED from the Go
+source on every run; (C) harness/props/c05.go drives a real server and compares its reaction —
+including the branch it took, read from the server's own counters — with `tcpRun` / `udpRun`.
 -/
 namespace Mieru.C05
-open Mieru.Server
+open Mieru.Server Mieru.Proofs.Server
+
+/-! ## Everything short of a valid open request is silent -/
+
+/-- TCP, full strength.  For EVERY sequence of reads of a fresh underlay — any lengths, any content,
+    stalls, end of stream — in which no unit is a valid open request (`TcpUnit.validOpen`: ≥ 72 bytes,
+    opens under a registered key, not a replay, unmarshals, body complete and authentic, open-session
+    request, id ≠ 0): nothing is written, no session exists, nothing reaches the proxy application, and
+    no receive cipher is left installed on a loop that still runs. -/
+theorem tcp_silent_until_valid_open (us : List TcpUnit) (h : ∀ u ∈ us, u.validOpen = false) :
+    (tcpRun {} us).out = [] ∧ (tcpRun {} us).sessions = [] ∧ (tcpRun {} us).accepted = [] ∧
+    ((tcpRun {} us).recv = none ∨ (tcpRun {} us).closed = true) :=
+  tcpRun_quiet us {} quiet_init h
+
+/-- … and the characterisation is exact: on a fresh underlay a unit is accepted (equivalently:
+    answered) if and only if it is a valid open request. -/
+theorem tcp_accept_iff_valid_open (u : TcpUnit) :
+    ((tcpStep {} u).accepted ≠ [] ↔ u.validOpen = true) ∧ ((tcpStep {} u).out ≠ [] ↔ u.validOpen = true) := by
+  cases hv : u.validOpen with
+  | true =>
+    obtain ⟨h1, _, h3, _⟩ := tcpStep_valid_open u hv
+    simp [h1, h3]
+  | false =>
+    obtain ⟨h1, _, h3, _⟩ := tcpStep_quiet {} u quiet_init hv
+    simp [h1, h3]
+
+/-- the classes of the property that DO open under a registered key and are still silent: a fresh
+    genuine handshake cut anywhere after the header (`bodyAvail` short), damaged in its payload
+    (`payloadOpens = false`), stamped more than a minute away (`tsOk = false`), carrying session id 0,
+    or of any other protocol type -/
+theorem tcp_authenticated_but_invalid_silent (u : TcpUnit) (rest : List TcpUnit)
+    (h : u.md.tsOk = false ∨ u.bodyAvail < tcpBodyNeed u.md ∨ (0 < u.md.payloadLen ∧ u.payloadOpens = false) ∨
+         u.md.sid = 0 ∨ u.md.proto ≠ pOpenReq ∨ u.dup = true) (hne : ¬ (u.avail = 0 ∧ u.eof = false)) :
+    (tcpRun {} (u :: rest)).out = [] ∧ (tcpRun {} (u :: rest)).sessions = [] ∧
+    (tcpRun {} (u :: rest)).accepted = [] ∧ (tcpRun {} (u :: rest)).closed = true := by
+  have hv : u.validOpen = false := by
+    cases hvo : u.validOpen with
+    | false => rfl
+    | true =>
+      exfalso
+      simp only [TcpUnit.validOpen, Bool.and_eq_true, decide_eq_true_eq, Bool.not_eq_true', Bool.or_eq_true,
+        beq_iff_eq, validNewSession, bne_iff_ne, ne_eq] at hvo
+      obtain ⟨⟨⟨⟨⟨⟨_, _⟩, hdup⟩, hum⟩, hb⟩, hp⟩, hproto, hsid⟩ := hvo
+      rcases h with h | h | h | h | h | h
+      · have hs : isSession u.md.proto = true := by rw [hproto]; decide
+        simp [unmarshalOk, hs, h] at hum
+      · omega
+      · rcases hp with hp | hp
+        · omega
+        · rw [h.2] at hp; exact absurd hp (by decide)
+      · exact hsid h
+      · exact h hproto
+      · rw [h] at hdup; exact absurd hdup (by decide)
+  have hq := tcpStep_quiet {} u quiet_init hv
+  have hc : (tcpStep {} u).closed = true := by
+    obtain ⟨_, _, _, h4⟩ := hq
+    rcases h4 with h4 | h4
+    · -- recv = none after a non-idle unit: the loop has ended
+      unfold tcpStep at h4 ⊢
+      by_cases ha : u.avail < firstReadLen
+      · simp [headerLen, ha, hne]
+      · simp only [Bool.false_eq_true, if_false, headerLen, Option.isNone_none, if_true, ha] at h4 ⊢
+        cases hop : u.opens with
+        | none => rfl
+        | some usr =>
+          simp only [hop] at h4
+          cases hd : u.dup with
+          | true => rfl
+          | false =>
+            simp only [hd, Bool.false_eq_true, if_false] at h4
+            unfold tcpAfterOpen at h4
+            exfalso
+            repeat' split at h4
+            all_goals simp [tcpDispatch] at h4
+            all_goals (repeat' split at h4) <;> simp at h4
+    · exact h4
+  rw [tcpRun_cons, tcpRun_closed _ rest hc]
+  exact ⟨hq.1, hq.2.1, hq.2.2.1, hc⟩
+
+/-! ## The credential-less classes -/
 
 /-- no unit of the input opens under a registered key -/
 def TcpNoCredential (us : List TcpUnit) : Prop := ∀ u ∈ us, u.opens = none
 def UdpNoCredential (us : List UdpUnit) : Prop := ∀ u ∈ us, u.existing = none ∧ u.discover = none
 
-/-- Invariant of the TCP event loop: anything written, any session, any receive cipher implies that
-    some unit opened under a registered user's key. -/
-theorem tcp_state_needs_credential (us : List TcpUnit) (s : TcpSt)
-    (hs : s.recv = none ∧ s.out = [] ∧ s.sessions = [] ∧ s.accepted = [])
-    (h : TcpNoCredential us) :
-    (tcpRun s us).recv = none ∧ (tcpRun s us).out = [] ∧ (tcpRun s us).sessions = [] ∧ (tcpRun s us).accepted = [] := by
-  induction us generalizing s with
-  | nil => simpa [tcpRun] using hs
-  | cons u us ih =>
-    have hu : u.opens = none := h u (by simp)
-    have hrest : TcpNoCredential us := fun x hx => h x (by simp [hx])
-    simp only [tcpRun, List.foldl_cons]
-    apply ih _ _ hrest
-    obtain ⟨h1, h2, h3, h4⟩ := hs
-    unfold tcpStep
-    split
-    · exact ⟨h1, h2, h3, h4⟩
-    · split
-      · simp [h1, h2, h3, h4]
-      · simp [h1, h2, h3, h4, hu]
+theorem no_key_not_valid (u : TcpUnit) (h : u.opens = none) : u.validOpen = false := by
+  simp [TcpUnit.validOpen, h]
 
 /-- TCP: whatever bytes arrive — any length, any content, any number of segments — if nothing opens
     under a registered key the server sends nothing, creates no session, hands nothing to the proxy
-    application. -/
+    application, and never installs a receive cipher. -/
 theorem tcp_unauth_silent (us : List TcpUnit) (h : TcpNoCredential us) :
-    (tcpRun {} us).out = [] ∧ (tcpRun {} us).sessions = [] ∧ (tcpRun {} us).accepted = [] := by
-  have := tcp_state_needs_credential us {} ⟨rfl, rfl, rfl, rfl⟩ h
-  exact ⟨this.2.1, this.2.2.1, this.2.2.2⟩
-
-/-- The connection is torn down at the first such unit: nothing after it is even parsed. -/
-theorem tcp_unauth_closes (u : TcpUnit) (us : List TcpUnit) (h : u.opens = none) :
-    (tcpRun {} (u :: us)).closed = true := by
-  have hc : (tcpStep {} u).closed = true := by
-    unfold tcpStep; simp; split <;> simp [h]
-  have key : ∀ (us : List TcpUnit) (s : TcpSt), s.closed = true → (tcpRun s us).closed = true := by
+    (tcpRun {} us).out = [] ∧ (tcpRun {} us).sessions = [] ∧ (tcpRun {} us).accepted = [] ∧
+    (tcpRun {} us).recv = none := by
+  have hq := tcpRun_quiet us {} quiet_init (fun u hu => no_key_not_valid u (h u hu))
+  refine ⟨hq.1, hq.2.1, hq.2.2.1, ?_⟩
+  -- the receive cipher is only ever installed by a unit that opens
+  have key : ∀ (us : List TcpUnit) (s : TcpSt), s.recv = none → TcpNoCredential us → (tcpRun s us).recv = none := by
     intro us
     induction us with
-    | nil => intro s hs; simpa [tcpRun] using hs
-    | cons x xs ih =>
-      intro s hs
-      simp only [tcpRun, List.foldl_cons]
-      apply ih
-      unfold tcpStep; simp [hs]
-  simpa [tcpRun] using key us _ hc
+    | nil => intro s hs _; exact hs
+    | cons u us ih =>
+      intro s hs hn
+      rw [tcpRun_cons]
+      apply ih _ _ (fun x hx => hn x (by simp [hx]))
+      have hu := hn u (by simp)
+      unfold tcpStep
+      split
+      · exact hs
+      · split
+        · split <;> exact hs
+        · simp [hs, hu]
+  exact key us {} rfl h
 
-/-- fewer bytes than a nonce and a metadata block: no decryption is even attempted, nothing happens -/
-theorem short_input_silent (u : TcpUnit) (h : u.enough = false) :
+/-- The connection is torn down at the first unit that is not a mere read timeout: nothing after it
+    is even parsed.  (A read that times out with no byte at all is retried — the code keeps an idle
+    connection open; any byte short of a header, or the end of the stream, ends it.) -/
+theorem tcp_unauth_closes (u : TcpUnit) (us : List TcpUnit) (h : u.opens = none)
+    (hne : ¬ (u.avail = 0 ∧ u.eof = false)) : (tcpRun {} (u :: us)).closed = true := by
+  rw [tcpRun_cons, tcpRun_closed _ us (tcpStep_no_key_closes u h hne)]
+  exact tcpStep_no_key_closes u h hne
+
+/-- an idle read changes nothing: the underlay keeps waiting -/
+theorem tcp_idle_read (s : TcpSt) (u : TcpUnit) (h : u.avail = 0 ∧ u.eof = false) : tcpStep s u = s := by
+  unfold tcpStep
+  by_cases hc : s.closed = true
+  · simp [hc]
+  · have hlt : u.avail < headerLen s := by
+      rw [h.1]; unfold headerLen; split <;> decide
+    simp only [hc, Bool.false_eq_true, if_false, hlt, if_true]
+    rw [if_pos h]
+
+/-- fewer bytes than a nonce and a metadata block (72): no decryption is even attempted, whatever the
+    other fields say -/
+theorem short_input_silent (u : TcpUnit) (h : u.avail < firstReadLen) :
     (tcpStep {} u).out = [] ∧ (tcpStep {} u).sessions = [] ∧ (tcpStep {} u).recv = none := by
-  unfold tcpStep; simp [h]
+  unfold tcpStep
+  simp only [Bool.false_eq_true, if_false, headerLen, Option.isNone_none, if_true, h]
+  split <;> exact ⟨rfl, rfl, rfl⟩
+
+/-- UDP, full strength, FROM ANY STATE of the shared socket (other users' sessions alive, genuine
+    traffic interleaved): a datagram changes anything only if it is `effective` — at least 72 bytes,
+    opens under an existing session's or a registered user's key, is not a replay from another
+    address, unmarshals, passes the exact size checks and the payload AEAD, and (when authenticated by
+    discovery) has a client-to-server type and, for an open request, a non-zero id. -/
+theorem udp_dropped_unless_effective (s : UdpSt) (u : UdpUnit) (h : u.effective = false) : udpStep s u = s :=
+  udpStep_not_effective s u h
+
+theorem udp_run_dropped_unless_effective (s : UdpSt) (us : List UdpUnit) (h : ∀ u ∈ us, u.effective = false) :
+    udpRun s us = s := udpRun_not_effective us s h
+
+/-- what an effective datagram does is exactly the dispatch switch -/
+theorem udp_effective_dispatch (s : UdpSt) (u : UdpUnit) (h : u.effective = true) :
+    udpStep s u = udpDispatch s u.md := udpStep_effective s u h
 
 /-- UDP: every datagram that opens under no key is dropped; the state does not change at all. -/
 theorem udp_unauth_silent (us : List UdpUnit) (s : UdpSt) (h : UdpNoCredential us) : udpRun s us = s := by
-  induction us generalizing s with
+  apply udpRun_not_effective
+  intro u hu
+  obtain ⟨h1, h2⟩ := h u hu
+  simp [UdpUnit.effective, h1, h2]
+
+/-- the UDP classes that open under a registered key and are still dropped: truncated (any cut: the
+    exact size checks fail), payload damaged, stamped more than a minute away, session id 0, a
+    server-to-client type on first contact -/
+theorem udp_authenticated_but_invalid_dropped (s : UdpSt) (u : UdpUnit)
+    (h : u.md.tsOk = false ∨ udpBodyOk (u.len - packetHeaderLen) u.md u.payloadOpens = false ∨ u.dupOther = true ∨
+         (u.existing = none ∧ (clientToServer u.md.proto = false ∨ (u.md.proto = pOpenReq ∧ u.md.sid = 0)))) :
+    udpStep s u = s := by
+  apply udpStep_not_effective
+  rcases h with h | h | h | ⟨he, h⟩
+  · have : unmarshalOk u.md = false := by
+      unfold unmarshalOk; split
+      · simp [h]
+      · split
+        · simp [h]
+        · rfl
+    simp [UdpUnit.effective, this]
+  · simp [UdpUnit.effective, h]
+  · simp [UdpUnit.effective, h]
+  · rcases h with h | ⟨hp, hs⟩
+    · simp [UdpUnit.effective, he, h]
+    · simp [UdpUnit.effective, he, hp, hs, validNewSession]
+
+/-- a truncated datagram never passes the size checks: cut ANY positive number of bytes off a datagram
+    that passes them (and is longer than its header) and it fails them — for every metadata. -/
+theorem udp_truncation_fails_size_checks (m : Md) (rem cut : Nat) (po : Bool)
+    (hok : udpBodyOk rem m po = true) (hcut : 0 < cut) (hle : cut ≤ rem) :
+    udpBodyOk (rem - cut) m po = false := by
+  unfold udpBodyOk at hok ⊢
+  by_cases hs : isSession m.proto = true
+  · simp only [hs, if_true] at hok ⊢
+    by_cases hp : m.payloadLen > 0
+    · simp only [hp, if_true, Bool.and_eq_true, decide_eq_true_eq] at hok ⊢
+      have : decide (m.payloadLen + overhead + m.suffixLen = rem - cut) = false := by
+        simp only [decide_eq_false_iff_not]; omega
+      simp [this]
+    · simp only [hp, if_false, decide_eq_true_eq] at hok ⊢
+      simp only [decide_eq_false_iff_not]; omega
+  · simp only [hs, Bool.false_eq_true, if_false] at hok ⊢
+    by_cases hpre : m.prefixLen > rem
+    · simp [hpre] at hok
+    · simp only [hpre, if_false] at hok
+      by_cases hp2 : m.prefixLen > rem - cut
+      · simp [hp2]
+      · simp only [hp2, if_false]
+        by_cases hp : m.payloadLen > 0
+        · simp only [hp, if_true, Bool.and_eq_true, decide_eq_true_eq] at hok ⊢
+          have : decide (rem - cut - m.prefixLen = m.payloadLen + overhead + m.suffixLen) = false := by
+            simp only [decide_eq_false_iff_not]; omega
+          simp [this]
+        · simp only [hp, if_false, decide_eq_true_eq] at hok ⊢
+          simp only [decide_eq_false_iff_not]; omega
+
+/-! ## A user hint is not a credential -/
+
+open Mieru.Discovery in
+theorem cachedPhase_no_auth (n : Nat) (hint auth : Nat → Bool) (want : Bool) (hno : ∀ id, auth id = false)
+    (l : List Nat) (a : Acc) : (cachedPhase n hint auth want l a).1 = none := by
+  induction l generalizing a with
   | nil => rfl
-  | cons u us ih =>
-    obtain ⟨h1, h2⟩ := h u (by simp)
-    simp only [udpRun, List.foldl_cons]
-    have : udpStep s u = s := by
-      unfold udpStep; split
-      · rfl
-      · simp [h1, h2]
-    rw [this]
-    exact ih s (fun x hx => h x (by simp [hx]))
-
-/-- A user hint is not a credential: the model's reaction does not depend on it at all (the hint
-    only orders the decryption attempts, see C07); stated as: two units that differ only in fields
-    the server never reads without a key behave identically. Here: `dup` and `kind` of a unit that
-    does not open are irrelevant. -/
-theorem hint_is_not_a_credential (u v : TcpUnit) (hu : u.opens = none) (hv : v.opens = none)
-    (he : u.enough = v.enough) : tcpStep {} u = tcpStep {} v := by
-  unfold tcpStep; simp [hu, hv, he]
-
-/-- C06 (protocol level): a byte-exact replay of an accepted first segment still opens, but the
-    replay cache flags it: no session, no reply, connection closed. -/
-theorem tcp_replay_silent (u : TcpUnit) (us : List TcpUnit) (h : u.dup = true) :
-    (tcpRun {} (u :: us)).out = [] ∧ (tcpRun {} (u :: us)).accepted = [] ∧ (tcpRun {} (u :: us)).closed = true := by
-  have hstep : (tcpStep {} u).out = [] ∧ (tcpStep {} u).accepted = [] ∧ (tcpStep {} u).closed = true := by
-    unfold tcpStep
-    simp only [Bool.false_eq_true, if_false]
+  | cons id rest ih =>
+    unfold cachedPhase
     split
-    · simp
-    · split <;> simp [h]
-  have key : ∀ (us : List TcpUnit) (s : TcpSt), s.closed = true → tcpRun s us = s := by
-    intro us
-    induction us with
-    | nil => intro s _; rfl
-    | cons x xs ih =>
-      intro s hs
-      simp only [tcpRun, List.foldl_cons]
-      have : tcpStep s x = s := by unfold tcpStep; simp [hs]
-      rw [this]; exact ih s hs
-  have := key us _ hstep.2.2
-  simp only [tcpRun, List.foldl_cons] at this ⊢
-  rw [this]; exact hstep
+    · exact ih a
+    · simp only [hno id, Bool.false_eq_true, if_false]; exact ih _
 
-/-- C06 (protocol level, UDP): a recorded datagram re-sent from a different source address is
-    dropped even though it decrypts. -/
-theorem udp_replay_other_source_silent (s : UdpSt) (u : UdpUnit)
-    (h1 : u.existing = none) (h2 : u.dupOtherSource = true) : udpStep s u = s := by
-  unfold udpStep
+open Mieru.Discovery in
+theorem registryPhase_no_auth (hint auth : Nat → Bool) (want : Bool) (hno : ∀ id, auth id = false)
+    (l : List Nat) (a : Acc) : (registryPhase hint auth want l a).1 = none := by
+  induction l generalizing a with
+  | nil => rfl
+  | cons id rest ih =>
+    unfold registryPhase
+    split
+    · exact ih a
+    · simp only [hno id, Bool.false_eq_true, if_false]; exact ih _
+
+/-- `opens` of a first read is what user discovery (C07's `tryState`, the model of
+    `Registry.Discover`) returns.  If the metadata opens under NO registered user's key, discovery
+    returns nobody — for EVERY hint predicate (in particular one naming a real user), every content of
+    the source-address cache, and whether or not hints are mandatory.  The hint only orders the
+    attempts. -/
+theorem hint_is_not_a_credential (n : Nat) (hint auth : Nat → Bool) (cached : List Nat) (mandatory : Bool)
+    (hno : ∀ id, auth id = false) :
+    (Mieru.Discovery.tryState n hint auth cached mandatory).user = none := by
+  unfold Mieru.Discovery.tryState
+  have h1 := cachedPhase_no_auth n hint auth true hno cached { att := [], tried := [] }
   split
-  · rfl
-  · cases hd : u.discover <;> simp [h1, h2]
+  · rename_i u a1 heq; rw [heq] at h1; exact absurd h1 (by simp)
+  · rename_i a1 _
+    have h2 := registryPhase_no_auth hint auth true hno (Mieru.Discovery.ids n) a1
+    split
+    · rename_i u a2 heq; rw [heq] at h2; exact absurd h2 (by simp)
+    · rename_i a2 _
+      split
+      · rfl
+      · have h3 := cachedPhase_no_auth n hint auth false hno cached a2
+        split
+        · rename_i u a3 heq; rw [heq] at h3; exact absurd h3 (by simp)
+        · rename_i a3 _
+          have h4 := registryPhase_no_auth hint auth false hno (Mieru.Discovery.ids n) a3
+          split
+          · rename_i u a4 heq; rw [heq] at h4; exact absurd h4 (by simp)
+          · rfl
+
+/-- … so a forged hint changes nothing about the unit the first-contact model sees: with any hint the
+    unit has `opens = none` and `tcp_unauth_silent` applies. -/
+theorem forged_hint_silent (n : Nat) (hint auth : Nat → Bool) (cached : List Nat) (mandatory : Bool)
+    (hno : ∀ id, auth id = false) (u : TcpUnit)
+    (hu : u.opens = (Mieru.Discovery.tryState n hint auth cached mandatory).user.map (·.1)) (rest : List TcpUnit)
+    (hne : ¬ (u.avail = 0 ∧ u.eof = false)) :
+    (tcpRun {} (u :: rest)).out = [] ∧ (tcpRun {} (u :: rest)).accepted = [] ∧ (tcpRun {} (u :: rest)).closed = true := by
+  have hop : u.opens = none := by rw [hu, hint_is_not_a_credential n hint auth cached mandatory hno]; rfl
+  have hc := tcp_unauth_closes u rest hop hne
+  have hq := tcpStep_quiet {} u quiet_init (no_key_not_valid u hop)
+  rw [tcpRun_cons] at hc ⊢
+  have hcl : (tcpStep {} u).closed = true := tcpStep_no_key_closes u hop hne
+  rw [tcpRun_closed _ rest hcl]
+  exact ⟨hq.1, hq.2.2.1, hcl⟩
+
+/-! ## Ties to the source, regenerated on every run -/
+
+/-- the model's byte thresholds and limits are the constants of the compiled repository -/
+theorem server_constants_match_code :
+    (metadataLength : Int) = Gen.metadataLength ∧ (overhead : Int) = Gen.defaultOverhead ∧
+    (nonceSize : Int) = Gen.defaultNonceSize ∧ (packetHeaderLen : Int) = Gen.packetNonHeaderPosition ∧
+    (firstReadLen : Int) = Gen.metadataLength + Gen.defaultOverhead + Gen.defaultNonceSize ∧
+    (laterReadLen : Int) = Gen.metadataLength + Gen.defaultOverhead ∧
+    (maxSessionOpenPayload : Int) = Gen.maxSessionOpenPayload ∧
+    (pOpenReq : Int) = Gen.openSessionRequest ∧ (pOpenResp : Int) = Gen.openSessionResponse ∧
+    (pCloseReq : Int) = Gen.closeSessionRequest ∧ (pCloseResp : Int) = Gen.closeSessionResponse := by decide
+
+/-- the model's protocol classification is the TRANSLATED `isSessionProtocol` / `isDataProtocol` /
+    `isAckProtocol` / `isDataAckProtocol` / `isLowEntropyProtocol` of metadata.go, for every number -/
+theorem classification_matches_code (p : Nat) :
+    isSession p = Gen.Arith.isSessionProtocol p ∧ isData p = Gen.Arith.isDataProtocol p ∧
+    isAck p = Gen.Arith.isAckProtocol p ∧ isDataAck p = Gen.Arith.isDataAckProtocol p ∧
+    isLowEntropy p = Gen.Arith.isLowEntropyProtocol p := by
+  refine ⟨?_, ?_, ?_, ?_, ?_⟩ <;>
+  · rw [Bool.eq_iff_iff]
+    simp only [Gen.Arith.isSessionProtocol, Gen.Arith.isDataProtocol,
+      Gen.Arith.isAckProtocol, Gen.Arith.isDataAckProtocol, Gen.Arith.isLowEntropyProtocol, decide_eq_true_eq]
+    simp only [Gen.openSessionRequest, Gen.openSessionResponse, Gen.closeSessionRequest, Gen.closeSessionResponse,
+      Gen.dataClientToServer, Gen.dataServerToClient, Gen.ackClientToServer, Gen.ackServerToClient,
+      Gen.dataClientToServerLowEntropy, Gen.dataServerToClientLowEntropy]
+    simp only [isSession, isData, isAck, isDataAck, isLowEntropy, Bool.or_eq_true, beq_iff_eq]
+    omega
+
+/-- server_session_validation.go, regenerated: `validateServerSegmentDirection` accepts exactly the
+    protocol constants the model's `clientToServer` accepts; `validateNewServerSessionSegment` refuses
+    exactly: nil, a non-session struct or a protocol other than openSessionRequest, session id 0. -/
+theorem validation_matches_code :
+    (∀ p : Nat, clientToServer p = Gen.FirstContact.serverDirectionAccepts.contains (p : Int)) ∧
+    Gen.FirstContact.newSessionRefusals =
+      ["seg == nil || seg.metadata == nil", "!ok || ss.Protocol() != openSessionRequest", "ss.sessionID == 0"] := by
+  refine ⟨?_, by decide⟩
+  intro p
+  rw [Bool.eq_iff_iff]
+  simp [clientToServer, Gen.FirstContact.serverDirectionAccepts]
+  omega
+
+/-- The shape of the first-contact code, regenerated:
+    * stream: the read length starts at metadata + tag and grows by the nonce size exactly when no
+      receive cipher is installed; a failed `io.ReadFull` is retried only for a timeout with no byte;
+      the drain runs exactly for CRYPTO_ERROR and REPLAY_ERROR; no function on the read path (incl. the
+      drain and the discovery helpers) contains a network write;
+    * the send cipher of a server is derived only from an installed receive cipher;
+    * packet: datagrams below `packetNonHeaderPosition` are skipped; every failing branch of
+      `readOneSegment` after the socket read is `continue` (the function returns an error only for the
+      socket itself); the size checks of the two datagram parsers, with their comparison operators. -/
+theorem first_contact_shape :
+    Gen.FirstContact.streamReadLen =
+      ["readLen := MetadataLength + cipher.DefaultOverhead", "if t.recv == nil", "readLen += cipher.DefaultNonceSize"] ∧
+    Gen.FirstContact.streamRetryCond = "stderror.IsTimeout(err) && n == 0" ∧
+    Gen.FirstContact.streamDrainCond = "errType == stderror.CRYPTO_ERROR || errType == stderror.REPLAY_ERROR" ∧
+    Gen.FirstContact.readPathWrites = [] ∧
+    Gen.FirstContact.sendCipherInit =
+      ["if t.send != nil {", "return nil", "}", "if t.isClient {", "t.send = t.block.Clone()", "} else {",
+       "if t.recv != nil {", "t.send = t.recv.Clone()", "t.send.SetImplicitNonceMode(false)",
+       "t.send.SetImplicitNonceMode(true)", "} else {", "return fmt.Errorf(\"recv cipher is nil\")", "}", "}", "return nil"] ∧
+    Gen.FirstContact.packetShortCond = "n < packetNonHeaderPosition" ∧
+    Gen.FirstContact.packetReadErrorReturns =
+      ["io.ErrClosedPipe", "io.ErrClosedPipe", "nil", "io.ErrClosedPipe", "fmt.Errorf(\"ReadFrom() failed: %w\", err)"] ∧
+    Gen.FirstContact.packetSessionSizeChecks =
+      ["if ss.payloadLen > 0", "if len(remaining) < int(ss.payloadLen)+cipher.DefaultOverhead",
+       "if int(ss.payloadLen)+cipher.DefaultOverhead+int(ss.suffixLen) != len(remaining)",
+       "if int(ss.suffixLen) != len(remaining)"] ∧
+    Gen.FirstContact.packetDataAckSizeChecks =
+      ["if das.prefixLen > 0", "if int(das.prefixLen) > len(remaining)", "remaining = remaining[das.prefixLen:]",
+       "if das.payloadLen > 0", "wirePayloadLen := int(das.payloadLen) + cipher.DefaultOverhead",
+       "if len(remaining) < wirePayloadLen", "if len(remaining) != wirePayloadLen+int(das.suffixLen)",
+       "if int(das.suffixLen) != len(remaining)"] := by
+  refine ⟨by decide, by decide, by decide, by decide, by decide, by decide, by decide, by decide, by decide⟩
 
 /-- Structural tie (regenerated): the only network writes of pkg/protocol are in the two
     `writeOneSegment`s and `writeWithPossibleFragment`; the stream send cipher can only be derived
@@ -142,11 +400,45 @@ theorem network_write_sites :
        ("PacketUnderlay.RunEventLoop", "writeOneSegment")] := by decide
 
 /-! ## Non-vacuity: a genuine handshake IS answered and accepted, so silence is not the model's only
-    behaviour; and concrete credential-less inputs satisfy the hypotheses. -/
-example : (tcpRun {} [⟨true, some 0, false, true, true, .openReq 7⟩]).accepted = [7] ∧
-    (tcpRun {} [⟨true, some 0, false, true, true, .openReq 7⟩]).out = [.sessionTraffic 7] := by decide
-example : TcpNoCredential [⟨true, none, false, true, true, .openReq 7⟩, ⟨false, none, true, false, false, .unknown⟩] := by
+    behaviour; and concrete inputs of every class satisfy the hypotheses. -/
+
+/-- a genuine first segment: 72-byte header, opens for user 0, open request for session 7 with a
+    100-byte payload and 20 bytes of padding, all of it arrived -/
+def genuine : TcpUnit :=
+  { avail := 72, opens := some 0, md := { proto := 2, sid := 7, payloadLen := 100, suffixLen := 20 }, bodyAvail := 136 }
+
+example : genuine.validOpen = true ∧ (tcpRun {} [genuine]).accepted = [7] ∧
+    (tcpRun {} [genuine]).out = [.sessionTraffic 7] := by decide
+/-- the same, one byte short (fresh genuine handshake truncated inside the padding): opens, silent -/
+example : ({ genuine with bodyAvail := 135 } : TcpUnit).validOpen = false ∧
+    (tcpRun {} [{ genuine with bodyAvail := 135 }]).out = [] ∧ (tcpRun {} [{ genuine with bodyAvail := 135 }]).recv = some 0 := by decide
+/-- session id 0, a data segment first, a replay, a stale stamp: all silent, all closed -/
+example : (tcpRun {} [{ genuine with md := { genuine.md with sid := 0 } }]).closed = true ∧
+    (tcpRun {} [{ genuine with md := { proto := 6, sid := 7 }, bodyAvail := 0 }]).closed = true ∧
+    (tcpRun {} [{ genuine with dup := true }]).accepted = [] ∧
+    (tcpRun {} [{ genuine with md := { genuine.md with tsOk := false } }]).out = [] := by decide
+example : TcpNoCredential [{ avail := 72, opens := none, md := { proto := 2, sid := 7 } },
+    { avail := 5, eof := true, opens := none, md := { proto := 0, sid := 0 } }] := by
   intro u hu; simp at hu; rcases hu with rfl | rfl <;> rfl
-example : (udpRun {} [⟨true, none, some 1, false, true, true, .openReq 9⟩]).accepted = [9] := by decide
+/-- later iterations: after a genuine open, data for an unknown session draws a close request, an
+    open-session RESPONSE ends the connection (a server never accepts one) -/
+example : (tcpRun {} [genuine, { avail := 48, opens := some 0, md := { proto := 6, sid := 9 } }]).out =
+      [.sessionTraffic 7, .closeReq 9] ∧
+    (tcpRun {} [genuine, { avail := 48, opens := some 0, md := { proto := 3, sid := 7 } }]).closed = true := by decide
+
+/-- UDP: a genuine first datagram (72 + 100 + 16 + 20 bytes) is accepted; one byte shorter, or one
+    byte longer, it is dropped -/
+def genuineDatagram : UdpUnit :=
+  { len := 208, discover := some 1, md := { proto := 2, sid := 9, payloadLen := 100, suffixLen := 20 } }
+example : genuineDatagram.effective = true ∧ (udpRun {} [genuineDatagram]).accepted = [9] ∧
+    (udpRun {} [{ genuineDatagram with len := 207 }]).accepted = [] ∧
+    (udpRun {} [{ genuineDatagram with len := 209 }]).accepted = [] := by decide
+example : UdpNoCredential [{ len := 500, md := { proto := 2, sid := 1 } }] := by
+  intro u hu; simp at hu; subst hu; exact ⟨rfl, rfl⟩
+/-- a replayed datagram is dropped on the existing-session path too (as the code does) -/
+example : udpStep { sessions := [5] } { len := 72, existing := some 0, dupOther := true, md := { proto := 6, sid := 9 } }
+    = { sessions := [5] } := by decide
+/-- forged hint: no user authenticates, hint names user 2 of 3, cache full of stale ids -/
+example : (Mieru.Discovery.tryState 3 (fun id => id == 2) (fun _ => false) [2, 9, 0, 2] false).user = none := by decide
 
 end Mieru.C05
